@@ -145,7 +145,8 @@ UNew(lgK) == [lgK |-> lgK, hasAcc |-> TRUE, acc |-> Fresh(lgK), hasBM |-> FALSE,
 \* (the code walks in a golden-ratio stride order; the final coupon set does not depend on the order, and the
 \* accumulator's first_interesting_column is discarded or still 0 afterwards)
 RECURSIVE Walk(_, _)
-Walk(a, T) == IF T = {} THEN a ELSE LET x == MinOf(T) IN Walk(Upd(a, FoldCell(x, a.lgK)), T \ {x})
+\* (a.C >= 0 is always true: it forces TLC to evaluate the accumulated sketch at every level instead of building a chain of lazy values)
+Walk(a, T) == IF T = {} \/ a.C < 0 THEN a ELSE LET x == MinOf(T) IN Walk(Upd(a, FoldCell(x, a.lgK)), T \ {x})
 
 \* switch_to_bit_matrix
 Switch(v) == [v EXCEPT !.hasBM = TRUE, !.bm = BitMatrix(v.acc), !.hasAcc = FALSE, !.acc = NoSketch]
